@@ -117,6 +117,7 @@ class Stats:
         self.shapes = set()
         self.gen_ms = 0.0
         self.eval_ms = 0.0
+        self.eval_errors = []
 
 
 def shape_of(term):
@@ -224,6 +225,7 @@ def run(prop, cases, flavours_mode="reference", timeout_ms=20000, jobs=16, run_n
                 continue
             if hk.get("kind") == "unknown":
                 stats.inconclusive.append((c.tag, "%s: %s" % (".".join(path), hk.get("err"))))
+                stats.eval_errors.append((c, list(path), ns, hk.get("err")))
                 continue
             stats.keys += 1
             if hk["kind"] == "builder":
@@ -281,6 +283,8 @@ def run(prop, cases, flavours_mode="reference", timeout_ms=20000, jobs=16, run_n
                                         detail={"ns": ns, "generated": mdl.get("lhs"), "expected": mdl.get("rhs")}))
             else:
                 stats.inconclusive.append((c.tag, "%s/%s: %s %s" % (".".join(path), label, status, reason)))
+                if status == "inconclusive":
+                    stats.eval_errors.append((c, list(path), ns, "%s: %s" % (label, reason)))
     stats.wall = time.time() - t0
     stats.host_results = results
     return stats, findings
